@@ -166,10 +166,20 @@ def adopt (parent : List Obj) (o : Obj) : List Obj := parent ++ [wrapDotted o]
 
 def syntaxErr (site : String) (w : Word) : Err := .runtime site w.line
 
-def reservedName (isDef : Bool) (name : Str) : Bool :=
+/-- the constructor's own test on the full name (error cites the lead word's line) -/
+def reservedFull (isDef : Bool) (name : Str) : Bool :=
   isReserved name ||
   (if isDef then name != "include".toList && (splitOn '.' name).contains "include".toList
    else (splitOn '.' name).contains "include".toList)
+
+/-- scope.adopt builds a scope per leading name component; its constructor refuses a reserved
+    component (no source position is attached to that error) -/
+def reservedComponent (name : Str) : Bool := ((splitOn '.' name).dropLast).any isReserved
+
+def reservedName (isDef : Bool) (name : Str) : Bool := reservedFull isDef name || reservedComponent name
+
+def reservedLine (isDef : Bool) (name : Str) (line : Option Nat) : Option Nat :=
+  if reservedFull isDef name then line else none
 
 structure PState where
   ci : CI
@@ -255,7 +265,7 @@ def collectObjects : Nat → PState → Option Word → Nat → List Obj → Opt
             -- a scope
             if !isStdIdent lead.value then
               .error (syntaxErr (if lead.value == [';'] then "unexpected" else "improper_scope_name") lead)
-            else if reservedName false lead.value then .error (.runtime "reserved" lead.line)
+            else if reservedName false lead.value then .error (.runtime "reserved" (reservedLine false lead.value lead.line))
             else
               let sid := st.nextId
               match scopeAttrsLoop (ci2.rest.length + 2) ci2 w [] with
@@ -285,7 +295,7 @@ def collectObjects : Nat → PState → Option Word → Nat → List Obj → Opt
                   match collectAssigned ci3 lead with
                   | .error e => .error e
                   | .ok (ws, ci4) =>
-                    if reservedName true lead.value then .error (.runtime "reserved" lead.line)
+                    if reservedName true lead.value then .error (.runtime "reserved" (reservedLine true lead.value lead.line))
                     else
                       let d : Obj := .defn { name := lead.value, id := some st.nextId, disabled := dis,
                                              line := lead.line } ws
